@@ -95,15 +95,15 @@ Fixpoint lex_lt (a b : list Z) : bool :=
   | x :: a', y :: b' => (x <? y) || ((x =? y) && lex_lt a' b')
   end.
 
+(* sort_key.SortKey: None < numbers < other types by type name (Record, RecordSet, list, str) *)
 Definition val_rank (v : val) : Z :=
-  match v with VNone => 0 | VInt _ => 1 | VRec _ _ => 1 | VStr _ => 2 | _ => 3 end.
+  match v with VNone => 0 | VInt _ => 1 | VRec _ _ => 2 | VRecs _ _ => 3 | VList _ => 4 | VStr _ => 5 end.
 
-(* the order used by order_by: None < numbers (a reference sorts as its row id) < strings < the rest *)
+(* the order used by order_by.  References of one column point into one table and sort by row id (the table name,
+   which Record.__lt__ looks at first, is the same); lists / record sets among themselves are left unordered. *)
 Definition val_lt (a b : val) : bool :=
   match a, b with
   | VInt x, VInt y => x <? y
-  | VInt x, VRec _ y => x <? y
-  | VRec _ x, VInt y => x <? y
   | VRec _ x, VRec _ y => x <? y
   | VStr s, VStr t => lex_lt s t
   | _, _ => val_rank a <? val_rank b
@@ -384,37 +384,46 @@ Definition wrap (ty : ctyp) (v : val) : R val :=
               | VInt n => ROk (VRec u n)
               | VRec _ n => ROk (VRec u n)
               | VNone => ROk (VRec u 0)
+              | VStr s => ROk (VStr s)        (* alternative text in a reference cell reads as the text itself *)
               | _ => RErr ETYPE
               end
   | CRefList u => match v with
                   | VNone => ROk (VRecs u [])
                   | VRecs _ rs => ROk (VRecs u rs)
                   | VList vs => match ids_of vs with Some rs => ROk (VRecs u rs) | None => RErr ETYPE end
+                  | VStr s => ROk (VStr s)
                   | _ => RErr ETYPE
                   end
   end.
 
+(* the stored value of row r; the entry for row 0, if any, is the column's default (what the empty record and
+   references to missing rows show: '' for Text, 0 for Int ...) *)
 Definition data_at (l : list (Z * val)) (r : Z) : val :=
-  match lookup_z r l with Some v => v | None => VNone end.
+  match lookup_z r l with
+  | Some v => v
+  | None => match lookup_z 0 l with Some v => v | None => VNone end
+  end.
 
 Definition flat_ids (vs : list val) : list Z :=
   flat_map (fun v => match v with VRec _ r => [r] | VRecs _ rs => rs | _ => [] end) vs.
 
-Fixpoint index_of (r : Z) (l : list Z) (i : nat) : option nat :=
-  match l with
-  | [] => None
-  | x :: t => if x =? r then Some i else index_of r t (S i)
-  end.
+(* the full sort key order: the order_by columns, then manualSort, then the row id.  Rows of the table are in
+   manualSort order by row id here; a row id that is not a row of the table (the empty record, a dangling reference)
+   has manualSort = infinity and comes after them. *)
+Definition tie_lt (pa : bool) (ra : Z) (pb : bool) (rb : Z) : bool :=
+  match pa, pb with true, false => true | false, true => false | _, _ => ra <? rb end.
+Definition krow_lt (descs : list bool) (pa : bool) (a : list val * Z) (pb : bool) (b : list val * Z) : bool :=
+  key_lt descs (fst a) (fst b) || (negb (key_lt descs (fst b) (fst a)) && tie_lt pa (snd a) pb (snd b)).
 
-(* PREVIOUS / NEXT / RANK of row r in the sorted group s *)
-Definition prevnext (w : Z) (t : name) (r : Z) (s : list Z) : val :=
-  match index_of r s O with
-  | None => VRec t 0
-  | Some i =>
-      if w =? 0 then match i with O => VRec t 0 | S j => VRec t (nth j s 0) end
-      else if w =? 1 then VRec t (nth (S i) s 0)
-      else VInt (Z.of_nat (S i))
-  end.
+(* PREVIOUS / NEXT / RANK of the record with sort key `me` in the sorted group `ks` (records.FindOps: bisection by
+   sort key, so the record itself need not be in the group -- e.g. the empty record; present: is it a row at all) *)
+Definition prevnext (w : Z) (t : name) (descs : list bool) (present : bool) (me : list val * Z)
+                    (ks : list (list val * Z)) : val :=
+  let below := filter (fun k => krow_lt descs true k present me) ks in
+  let above := filter (fun k => krow_lt descs present me true k) ks in
+  if w =? 0 then VRec t (snd (last below ([], 0)))
+  else if w =? 1 then VRec t (snd (hd ([], 0) above))
+  else VInt (Z.of_nat (S (length below))).
 
 Definition elems (v : val) : R (list val) :=
   match v with
@@ -435,9 +444,12 @@ Section Eval.
   Definition rows_of (t : name) : R (list Z) :=
     match find_table d t with Some tb => ROk (trows tb) | None => RErr ENAME end.
 
-  Definition sort_rows (t : name) (ob : list (bool * name)) (rows : list Z) : R (list Z) :=
+  Definition keyed_rows (t : name) (ob : list (bool * name)) (rows : list Z) : R (list (list val * Z)) :=
     rbind (rmap (fun r => rbind (rmap (fun p => cellf t r (snd p)) ob) (fun kv => ROk (kv, r))) rows)
-          (fun keyed => ROk (map snd (sort_by (fun a b => key_lt (map fst ob) (fst a) (fst b)) keyed))).
+          (fun keyed => ROk (sort_by (fun a b => key_lt (map fst ob) (fst a) (fst b)) keyed)).
+
+  Definition sort_rows (t : name) (ob : list (bool * name)) (rows : list Z) : R (list Z) :=
+    rbind (keyed_rows t ob rows) (fun ks => ROk (map snd ks)).
 
   Definition row_matches (t : name) (r : Z) (kvs : list (name * val)) : R bool :=
     rbind (rmap (fun kv => rbind (cellf t r (fst kv)) (fun v => ROk (key_eqb v (snd kv)))) kvs)
@@ -494,11 +506,19 @@ Section Eval.
             rbind (rmap (fun c => cellf t r c) gb) (fun mine =>
             rbind (rfilter (fun r' => rbind (rmap (fun c => cellf t r' c) gb)
                                             (fun theirs => ROk (keys_eqb mine theirs))) rows) (fun grp =>
-            rbind (sort_rows t ob grp) (fun s => ROk (prevnext w t r s)))))
+            rbind (keyed_rows t ob grp) (fun ks =>
+            rbind (rmap (fun p => cellf t r (snd p)) ob) (fun kv =>
+            (* a summary table has no manualSort column: there the row id alone breaks ties *)
+            ROk (prevnext w t (map fst ob)
+                          (match summary_source d t with Some _ => true | None => existsb (Z.eqb r) rows end)
+                          (kv, r) ks))))))
         | _ => RErr ETYPE
         end)
     | EPrim1 f e1 => rbind (eval self row env e1) (prim1 f)
-    | EPrim2 f a b => rbind (eval self row env a) (fun va => rbind (eval self row env b) (prim2 f va))
+    | EPrim2 f a b =>
+        if f =? 3 then       (* `a or b` is lazy *)
+          rbind (eval self row env a) (fun va => if truthy va then ROk va else eval self row env b)
+        else rbind (eval self row env a) (fun va => rbind (eval self row env b) (prim2 f va))
     | EIf c a b => rbind (eval self row env c) (fun vc => if truthy vc then eval self row env a else eval self row env b)
     | EGroup =>
         match summary_source d self, find_table d self with
@@ -528,7 +548,11 @@ Fixpoint cell (prim1 : Z -> val -> R val) (prim2 : Z -> val -> val -> R val) (d 
           | Some co =>
               match cformula co with
               | None => wrap (ctype co) (data_at (cdata co) r)
-              | Some f => rbind (eval prim1 prim2 d (cell prim1 prim2 d n) t r [] f) (wrap (ctype co))
+              | Some f =>
+                  (* formulas are computed for the rows of the table; any other row id shows the column default *)
+                  if existsb (Z.eqb r) (trows tb)
+                  then rbind (eval prim1 prim2 d (cell prim1 prim2 d n) t r [] f) (wrap (ctype co))
+                  else wrap (ctype co) (data_at (cdata co) r)
               end
           end
       end
@@ -539,11 +563,30 @@ Definition eval_formula prim1 prim2 (fuel : nat) (d : doc) (self : name) (row : 
   eval prim1 prim2 d (cell prim1 prim2 d fuel) self row [] f.
 
 (* a concrete set of builtins (the theorems hold for ANY builtins that do not look at table names) *)
-Fixpoint sum_ints (vs : list val) : option Z :=
+(* SUM: numbers add up, everything else counts 0 (functions.math._chain_numeric_a; booleans are the ints 0/1 here) *)
+Fixpoint sum_ints (vs : list val) : Z :=
   match vs with
-  | [] => Some 0
-  | VInt n :: t => option_map (Z.add n) (sum_ints t)
-  | _ :: _ => None
+  | [] => 0
+  | VInt n :: t => n + sum_ints t
+  | _ :: t => sum_ints t
+  end.
+
+(* Python ==: structural; a record equals a record of the same table and row only *)
+Fixpoint val_eqb (a b : val) {struct a} : bool :=
+  match a, b with
+  | VNone, VNone => true
+  | VInt x, VInt y => x =? y
+  | VStr s, VStr t => name_eqb s t
+  | VRec t r, VRec t' r' => name_eqb t t' && (r =? r')
+  | VRecs t rs, VRecs t' rs' => name_eqb t t' && name_eqb rs rs'
+  | VList l, VList m =>
+      (fix go (l m : list val) {struct l} : bool :=
+         match l, m with
+         | [], [] => true
+         | x :: l', y :: m' => val_eqb x y && go l' m'
+         | _, _ => false
+         end) l m
+  | _, _ => false
   end.
 
 Definition std_prim1 (f : Z) (v : val) : R val :=
@@ -554,15 +597,17 @@ Definition std_prim1 (f : Z) (v : val) : R val :=
     | VRecs _ rs => ROk (VInt (Z.of_nat (length rs)))
     | _ => RErr ETYPE
     end
-  else if f =? 1 then (* SUM *)
+  else if f =? 1 then (* SUM: one level of iteration, never fails *)
     match v with
-    | VList vs => match sum_ints vs with Some n => ROk (VInt n) | None => RErr ETYPE end
-    | _ => RErr ETYPE
+    | VList vs => ROk (VInt (sum_ints vs))
+    | VInt n => ROk (VInt n)
+    | _ => ROk (VInt 0)
     end
   else if f =? 2 then (* list *)
     match v with
     | VList vs => ROk (VList vs)
     | VRecs t rs => ROk (VList (map (VRec t) rs))
+    | VStr s => ROk (VList (map (fun c => VStr [c]) s))
     | _ => RErr ETYPE
     end
   else if f =? 4 then (* bool *)
@@ -577,12 +622,56 @@ Definition std_prim2 (f : Z) (a b : val) : R val :=
     | VList l, VList m => ROk (VList (l ++ m))
     | _, _ => RErr ETYPE
     end
-  else if f =? 1 then ROk (VInt (if key_eqb a b then 1 else 0))       (* == *)
-  else if f =? 2 then ROk (VInt (if val_lt a b then 1 else 0))        (* < *)
+  else if f =? 1 then ROk (VInt (if val_eqb a b then 1 else 0))       (* == *)
+  else if f =? 2 then                                                  (* < : same kinds only *)
+    match a, b with
+    | VInt x, VInt y => ROk (VInt (if x <? y then 1 else 0))
+    | VStr s, VStr t => ROk (VInt (if lex_lt s t then 1 else 0))
+    | VRec t x, VRec t' y =>
+        (* Record.__lt__ orders by (table id, row id); across tables that order depends on the table NAMES and is
+           not modelled *)
+        if name_eqb t t' then ROk (VInt (if x <? y then 1 else 0)) else RErr ETYPE
+    | VRec _ _, _ => RErr EATTR        (* other._table *)
+    | _, _ => RErr ETYPE
+    end
   else if f =? 3 then ROk (if truthy a then a else b)                 (* or *)
   else RErr ETYPE.
 
 Definition evalS := eval_formula std_prim1 std_prim2.
+
+(* ---- what UserActions._updateTableRecords does to reference columns when a table is renamed ------------------- *)
+(* Columns of type Ref:Old / RefList:Old are retyped to Int and then to Ref:New.  The detour converts the cells:
+   row ids survive, but ALTERNATIVE TEXT that reads as a number becomes that number, i.e. a row id. *)
+Fixpoint digits_val (s : list Z) (acc : Z) : option Z :=
+  match s with
+  | [] => Some acc
+  | c :: t => if (48 <=? c) && (c <=? 57) then digits_val t (acc * 10 + (c - 48)) else None
+  end.
+Definition parse_int (s : list Z) : option Z := match s with [] => None | _ => digits_val s 0 end.
+
+Definition retype_val (ty : ctyp) (v : val) : val :=
+  match ty, v with
+  | CRef _, VStr s => match parse_int s with Some n => VInt n | None => v end
+  | CRefList _, VStr s => match parse_int s with
+                          | Some n => if n =? 0 then VNone else VList [VInt n]     (* row 0 is no reference *)
+                          | None => v
+                          end
+  | _, _ => v
+  end.
+
+Definition targets (ty : ctyp) (a : name) : bool :=
+  match ty with CPlain => false | CRef t => name_eqb t a | CRefList t => name_eqb t a end.
+
+Definition retype_column (a : name) (co : column) : column :=
+  if targets (ctype co) a
+  then mkcol (cname co) (ctype co) (cformula co) (map (fun p => (fst p, retype_val (ctype co) (snd p))) (cdata co))
+  else co.
+
+Definition retype_doc (a : name) (d : doc) : doc :=
+  map (fun tb => mktab (tname tb) (map (retype_column a) (tcols tb)) (trows tb) (tgroups tb)) d.
+
+(* RenameTable a -> b as the engine performs it *)
+Definition engine_rename_table (a b : name) (d : doc) : doc := rename_doc (ren1 a b) id_col (retype_doc a d).
 
 (* ================================================================================================= *)
 (* Part B: formula TEXT.  textbuilder.Replacer as UserActions._prepare_formula_renames uses it.          *)
